@@ -3,7 +3,7 @@
 use std::cell::Cell;
 use std::sync::atomic::{AtomicU32, AtomicU64, Ordering::Relaxed};
 
-pub const MAX_ELEMS: usize = 4200;
+pub const MAX_ELEMS: usize = 9300;
 
 /// Per-worker ledger. Atomics only so that elements are `Send + Sync` and real threads may be used.
 pub struct Ledger {
